@@ -308,6 +308,11 @@ def moveAndGetChecksums (pid : Option Str) (t : Tok) (add cs : Option Str)
     | none, _ => eff (.removeTmp .obj)
   return { cid := cid, size := size, digests := digests }
 
+/-- the checksum as `_verify_object_information` receives it: the string, if one was given -/
+def strArg : SArg → Option Str
+  | .str c => some c
+  | _ => none
+
 /-- `store_object` (509-582) -/
 def storeObject (pid : SArg) (data : DataArg) (additional checksum csAlg : SArg)
     (expSize : IArg) : PE Val := do
@@ -326,8 +331,7 @@ def storeObject (pid : SArg) (data : DataArg) (additional checksum csAlg : SArg)
     PE.withFinally (do
         acquire .objPid p
         let t ← PE.ofExcept (openStream data)
-        let cks := match checksum with | .str c => some c | _ => none
-        let m ← moveAndGetChecksums cfg o (some p) t add' cs' cks expSize
+        let m ← moveAndGetChecksums cfg o (some p) t add' cs' (strArg checksum) expSize
         let _ ← tagObject cfg o (.str p) (.str m.cid)
         return .objMeta m)
       (release .objPid p)
